@@ -258,6 +258,9 @@ def run(ck):
     crashed = [(t["facts"], r["thread_excs"]) for (t, r), _v in pairs if r.get("thread_excs")]
     if crashed:
         ck.machinery_errors.append("harness threads crashed in %d executions, e.g. %s" % (len(crashed), crashed[:2]))
+    cut = [(t["facts"], r["outcome"], r["steps"]) for (t, r), _v in pairs if r.get("outcome") != "finished"]
+    if cut:
+        ck.machinery_errors.append("%d executions did not run to their End event, e.g. %s" % (len(cut), cut[:2]))
     ck.notes["rule"] = ("one evaluation = one execution of the real library under the controlled scheduler holding "
                         "1-24 independent cases (input future + f_proxy / f_nocancel wrapper + operations), validated "
                         "by TLC against ProxyObs; distinct = distinct (scenario, projected trace) pairs; non-trivial = "
